@@ -17,6 +17,13 @@
 (*              instructions as the spec decodes them; no panic            *)
 (*   comps      Glyph.Components: the glyphIndex list                      *)
 (*   fix        Glyph.FixComponents: ids rewritten by the map, rest equal  *)
+(*   resetbig / encodebig / decodebig   the same round trip for glyph sets *)
+(*              whose glyf table is too large to log (> 16 MiB): glyphs    *)
+(*              are logged as digests (kind, contours, box, body length    *)
+(*              and checksum), Encode as the raw loca bytes and the glyf   *)
+(*              length; TLC recomputes every offset from the four raw      *)
+(*              bytes and demands the loca invariants, record lengths that *)
+(*              fit the glyphs, and Decode = the digests that went in      *)
 (*   put        the caller stores an earlier Fix result in the glyph set   *)
 (*   observe    after every call of a call history: the glyph set, the     *)
 (*              Components() lists of all its glyphs and all earlier Fix   *)
@@ -37,12 +44,13 @@ VARIABLES l,     \* next line
           gs,    \* current in-memory glyph set as logged (sequence of glyph values)
           have,  \* gs is defined
           rt,    \* the next decode is the second half of a round trip
-          res    \* the results of the Fix calls of this case that the harness keeps (expected values)
-vars == <<l, enc, gs, have, rt, res>>
+          res,   \* the results of the Fix calls of this case that the harness keeps (expected values)
+          bigok  \* digest mode: the last encodebig event passed every check
+vars == <<l, enc, gs, have, rt, res, bigok>>
 
 E == Trace[l]
 NoEnc == [fmt |-> -1, loca |-> <<>>, glyf |-> <<>>]
-Init == l = 1 /\ enc = NoEnc /\ gs = <<>> /\ have = FALSE /\ rt = FALSE /\ res = <<>>
+Init == l = 1 /\ enc = NoEnc /\ gs = <<>> /\ have = FALSE /\ rt = FALSE /\ res = <<>> /\ bigok = FALSE
         /\ TLCSet(1, 0) /\ TLCSet(2, 0) /\ TLCSet(3, 0)
 Consume == l' = l + 1 /\ TLCSet(1, l)
 Is(ev) == l <= Len(Trace) /\ E.ev = ev
@@ -66,38 +74,48 @@ GlyphClass(g) ==
   IF g.k = "s" /\ g.nc = 0 THEN (IF Len(g.body) < 2 THEN "zero-contour-glyph-header-only" ELSE "zero-contour-glyph")
   ELSE IF g.k = "s" THEN "simple-glyph" ELSE IF g.k = "c" THEN "composite-glyph" ELSE "empty-glyph"
 
+\* Large glyph sets are logged run-length encoded: runs [n, g] of n equal glyph values.
+ExpandRLE(rle) ==
+  LET ends  == FoldLeft(LAMBDA a, r : Append(a, a[Len(a)] + r.n), <<0>>, rle)
+      total == ends[Len(ends)]
+      f     == [i \in 1..total |-> rle[CHOOSE r \in 1..Len(rle) : ends[r] < i /\ i <= ends[r + 1]].g]
+  IN SubSeq(f, 1, total)
+GlyphsOf(e) == IF e.isrle THEN ExpandRLE(e.rle) ELSE e.glyphs
+
 Reset ==
   /\ Is("reset")
   /\ enc' = [fmt |-> E.fmt, loca |-> E.loca, glyf |-> E.glyf]
   /\ gs' = <<>> /\ have' = FALSE /\ rt' = FALSE /\ res' = <<>>
-  /\ Consume
+  /\ UNCHANGED bigok /\ Consume
 
 ResetLib ==
   /\ Is("resetlib")
-  /\ enc' = NoEnc /\ gs' = E.glyphs /\ have' = TRUE /\ rt' = FALSE /\ res' = <<>>
-  /\ Consume
+  /\ enc' = NoEnc /\ gs' = GlyphsOf(E) /\ have' = TRUE /\ rt' = FALSE /\ res' = <<>>
+  /\ UNCHANGED bigok /\ Consume
 
 (* The checks are state-level operators compared with TRUE inside the actions: TLC then evaluates   *)
 (* them as expressions (LET values are cached) and not as actions (where they are recomputed at     *)
 (* every mention, which is quadratic for large glyph sets).                                          *)
 DecodeOK ==
-  LET d == DecodeSet(enc.fmt, enc.loca, enc.glyf) IN
+  LET d  == DecodeSet(enc.fmt, enc.loca, enc.glyf)
+      eg == GlyphsOf(E)
+  IN
   IF enc.fmt < 0 \/ ~d.ok
     THEN NoDemand            \* not a valid encoding by the format: nothing is demanded
     ELSE /\ CheckC(~E.panic, "decode:panic", SetClass(d.d))
          /\ E.panic \/ CheckC(E.ok, "decode:error", SetClass(d.d))
          /\ E.ok =>
-              /\ Check(Len(E.glyphs) = Len(d.d), "decode:count")
-              /\ Len(E.glyphs) = Len(d.d) =>
-                   CheckAll(Len(d.d), LAMBDA i : Represents(E.glyphs[i], d.d[i]), "decode:glyph")
-              /\ rt => Check(CanonSet(E.glyphs) = CanonSet(gs), "roundtrip:glyphs-differ")
+              /\ Check(Len(eg) = Len(d.d), "decode:count")
+              /\ Len(eg) = Len(d.d) =>
+                   CheckAll(Len(d.d), LAMBDA i : Represents(eg[i], d.d[i]), "decode:glyph")
+              /\ rt => Check(CanonSet(eg) = CanonSet(gs), "roundtrip:glyphs-differ")
 
 Decode ==
   /\ Is("decode")
   /\ DecodeOK = TRUE
-  /\ gs' = IF E.ok THEN E.glyphs ELSE <<>>
+  /\ gs' = IF E.ok THEN GlyphsOf(E) ELSE <<>>
   /\ have' = E.ok /\ rt' = FALSE
-  /\ UNCHANGED <<enc, res>> /\ Consume
+  /\ UNCHANGED <<enc, res, bigok>> /\ Consume
 
 RecordOK(rec, g) == LET d == DecodeGlyph(rec) IN d.ok /\ Represents(g, d)
 EncodeOK ==
@@ -122,7 +140,7 @@ Encode ==
   /\ EncodeOK = TRUE
   /\ enc' = IF E.panic THEN NoEnc ELSE [fmt |-> E.fmt, loca |-> E.loca, glyf |-> E.glyf]
   /\ rt' = have
-  /\ UNCHANGED <<gs, have, res>> /\ Consume
+  /\ UNCHANGED <<gs, have, res>> /\ UNCHANGED bigok /\ Consume
 
 \* SimpleGlyph.Decode on glyph E.i (0-based)
 SimpleOK ==
@@ -140,7 +158,7 @@ SimpleOK ==
 Simple ==
   /\ Is("simple")
   /\ SimpleOK = TRUE
-  /\ UNCHANGED <<enc, gs, have, rt, res>> /\ Consume
+  /\ UNCHANGED <<enc, gs, have, rt, res>> /\ UNCHANGED bigok /\ Consume
 
 CompsOK ==
   IF ~have \/ E.i + 1 > Len(gs) THEN NoDemand
@@ -153,7 +171,7 @@ CompsOK ==
 Comps ==
   /\ Is("comps")
   /\ CompsOK = TRUE
-  /\ UNCHANGED <<enc, gs, have, rt, res>> /\ Consume
+  /\ UNCHANGED <<enc, gs, have, rt, res>> /\ UNCHANGED bigok /\ Consume
 
 FixOK ==
   IF ~have \/ E.i + 1 > Len(gs) THEN NoDemand
@@ -171,13 +189,13 @@ Fix ==
   /\ FixOK = TRUE
   /\ res' = IF ~E.keep THEN res
             ELSE Append(res, IF FixDemand THEN FixValue(gs[E.i + 1], E.map) ELSE E.glyph)
-  /\ UNCHANGED <<enc, gs, have, rt>> /\ Consume
+  /\ UNCHANGED <<enc, gs, have, rt>> /\ UNCHANGED bigok /\ Consume
 
 \* the caller stores result E.k (0-based) as glyph E.i (0-based): an input step, nothing to check
 Put ==
   /\ Is("put")
   /\ gs' = IF have /\ E.i + 1 <= Len(gs) /\ E.k + 1 <= Len(res) THEN [gs EXCEPT ![E.i + 1] = res[E.k + 1]] ELSE gs
-  /\ UNCHANGED <<enc, have, rt, res>> /\ Consume
+  /\ UNCHANGED <<enc, have, rt, res>> /\ UNCHANGED bigok /\ Consume
 
 \* History: FixComponents (and every other call) leaves the glyph set it was applied to and all
 \* earlier results unchanged -- "component lists are reported and rewritten exactly, component
@@ -192,7 +210,7 @@ ObserveOK ==
 Observe ==
   /\ Is("observe")
   /\ ObserveOK = TRUE
-  /\ UNCHANGED <<enc, gs, have, rt, res>> /\ Consume
+  /\ UNCHANGED <<enc, gs, have, rt, res>> /\ UNCHANGED bigok /\ Consume
 
 RecheckOK ==
   IF ~have \/ E.i + 1 > Len(gs) THEN NoDemand
@@ -201,9 +219,56 @@ RecheckOK ==
 Recheck ==
   /\ Is("recheck")
   /\ RecheckOK = TRUE
-  /\ UNCHANGED <<enc, gs, have, rt, res>> /\ Consume
+  /\ UNCHANGED <<enc, gs, have, rt, res>> /\ UNCHANGED bigok /\ Consume
 
-Next == Reset \/ ResetLib \/ Decode \/ Encode \/ Simple \/ Comps \/ Fix \/ Put \/ Observe \/ Recheck
+\* ---- digest mode (glyf tables beyond what can be logged) ----
+\* a digest: [k, nc, bbox, blen, bsum]; the record of a non-empty glyph has 10 + blen bytes plus padding
+ResetBig ==
+  /\ Is("resetbig")
+  /\ enc' = NoEnc /\ gs' = E.glyphs /\ have' = TRUE /\ rt' = FALSE /\ res' = <<>> /\ bigok' = FALSE
+  /\ l' = l + 1 /\ TLCSet(1, l)
+
+BigOffs == LET p == ParseLoca(E.fmt, E.loca) IN IF p.ok THEN SubSeq(p.offs, 1, Len(p.offs)) ELSE <<>>
+RecLenOK(n, g) == IF g.k = "nil" THEN n = 0 ELSE n >= 10 + g.blen /\ n < 10 + g.blen + 4
+EncodeBigGood ==
+  LET offs == BigOffs IN
+  /\ ~E.panic /\ ParseLoca(E.fmt, E.loca).ok
+  /\ Len(offs) = Len(gs) + 1 /\ Monotone(offs) /\ AllEven(offs) /\ Inside(offs, E.glyflen)
+  /\ \A i \in 1..Len(gs) : RecLenOK(offs[i + 1] - offs[i], gs[i])
+EncodeBigOK ==
+  LET p    == ParseLoca(E.fmt, E.loca)        \* every offset from its raw bytes: b0*2^24 + b1*2^16 + b2*2^8 + b3
+      offs == BigOffs
+  IN /\ Check(~E.panic, "encode:panic")
+     /\ ~E.panic =>
+          /\ Check(p.ok, "encode:loca-format")
+          /\ p.ok =>
+               /\ Check(Len(offs) = Len(gs) + 1, "encode:loca-count")
+               /\ Check(Monotone(offs), "encode:loca-order")
+               /\ Check(AllEven(offs), "encode:loca-even")
+               /\ Check(Inside(offs, E.glyflen), "encode:loca-inside")
+               /\ Len(offs) = Len(gs) + 1 =>
+                    CheckAll(Len(gs), LAMBDA i : RecLenOK(offs[i + 1] - offs[i], gs[i]), "encode:record-length")
+EncodeBig ==
+  /\ Is("encodebig")
+  /\ (IF have THEN EncodeBigOK ELSE NoDemand) = TRUE
+  /\ bigok' = (have /\ EncodeBigGood)
+  /\ UNCHANGED <<enc, gs, have, rt, res>>
+  /\ l' = l + 1 /\ TLCSet(1, l)
+
+\* the encoder's tables passed every check and hold library-encoded glyphs: decoding them must
+\* succeed and return the glyphs that went in
+DecodeBigOK ==
+  IF ~bigok THEN NoDemand
+  ELSE /\ Check(~E.panic, "decode:panic")
+       /\ E.panic \/ Check(E.ok, "decode:error")
+       /\ E.ok => Check(E.glyphs = gs, "roundtrip:glyphs-differ")
+DecodeBig ==
+  /\ Is("decodebig")
+  /\ DecodeBigOK = TRUE
+  /\ UNCHANGED <<enc, gs, have, rt, res, bigok>>
+  /\ l' = l + 1 /\ TLCSet(1, l)
+
+Next == ResetBig \/ EncodeBig \/ DecodeBig \/ Reset \/ ResetLib \/ Decode \/ Encode \/ Simple \/ Comps \/ Fix \/ Put \/ Observe \/ Recheck
 Spec == Init /\ [][Next]_vars
 
 Accepted == /\ PrintT(<<"STATS", TLCGet(1), TLCGet(2), TLCGet(3)>>)
